@@ -243,6 +243,28 @@ impl Directory {
 
 #[cfg(quickwit_oss_mrecordlog_verif)]
 #[allow(dead_code)]
+impl RollingReader {
+    /// Verification hook: a reader positioned on block `block_id` of `file_number` whose content is
+    /// `block`, over the given (never used) file handle.
+    pub(crate) fn verif_new(
+        file: File,
+        directory: Directory,
+        file_number: FileNumber,
+        block_id: usize,
+        block: Box<[u8; BLOCK_NUM_BYTES]>,
+    ) -> RollingReader {
+        RollingReader {
+            file,
+            directory,
+            file_number,
+            block_id,
+            block,
+        }
+    }
+}
+
+#[cfg(quickwit_oss_mrecordlog_verif)]
+#[allow(dead_code)]
 impl RollingWriter {
     /// Verification hook: a writer positioned at `offset` of `file_number` over the given (never
     /// used) file handle.
